@@ -47,6 +47,25 @@ def e2e_case(rec):
         flags = ["--combine-output"] + {"A": ["--keep-output-crlf"], "B": ["--no-keep-output-crlf"]}[crlf]
         exp = ["o\\r (escaped)", "e\\r (escaped)"] if crlf == "A" else ["o", "e"]
         return [], "", flags, "printf 'o\\r\\n'; printf 'e\\r\\n' >&2", exp, 0
+    # a second, harmless key (timeout: 6s) in the inline configuration and / or the document defaults, next to the key
+    # under test in the same or another layer: the layers must be merged key by key
+    if not env_set and len(set_keys) == 2 and "timeout" in set_keys and all(sc(l, "timeout") == "U" for l in (cli, fmt)) \
+            and all(sc(l, "timeout") in ("U", "B") for l in (tc, doc)):
+        import copy
+        rec2 = copy.deepcopy(rec)
+        for l in ("tc", "doc"):
+            rec2[l]["scalar"]["timeout"] = "U"
+        base = e2e_case(rec2)
+        if base is None:
+            return None
+        fm, inline, flags, command, exp, want = base
+        if "--cram-compat" in flags:
+            return None          # (the single-script executor refuses per-test timeouts)
+        if sc(doc, "timeout") == "B":
+            fm = (fm or ["defaults:"]) + ["  timeout: 6s"]
+        if sc(tc, "timeout") == "B":
+            inline = (inline[:-1] + ", timeout: 6s}") if inline else "{timeout: 6s}"
+        return fm, inline, flags, command, exp, want
     if env_set or len(set_keys) != 1:
         return None
     k = next(iter(set_keys))
